@@ -304,6 +304,11 @@ func c01Sequential(ev *vlib.Evidence, driver string, idx int, faults bool) {
 				ev.Violate("forged-update-accepted", map[string]interface{}{"trace": lw.trace})
 			}
 		}
+		if vlib.IsWatchdog(opErr) {
+			// the pool may still be working on this request: nothing can be concluded from the state now
+			ev.Inconclusive("harness-watchdog")
+			return
+		}
 		injected := ""
 		if lw.chaos != nil && failOp != "" && lw.chaos.Calls(failOp) >= failN {
 			injected = fmt.Sprintf(" [injected fault: %s call #%d]", failOp, failN)
